@@ -324,6 +324,7 @@ def L4(ctx):
         else:
             ctx.bad("L4", fk, "%s must only forward to %s (calls: %s)" % (fk, fwd, sorted(set(calls))[:6]), fn.loc())
     ctx.floor("L4", n, 4, "get_mut/into_inner of both locks")
+WITNESSES = ['C07MutexGuardNotSend', 'C07RwLockGuardsNotSend', 'C07GetMutNeedsMut']
 
 
 def run(ctx):
